@@ -19,6 +19,33 @@ NONTRIVIAL = ("a run is non-trivial if the scheduler had at least one decision p
               "or at least one injected fault fired; distinct = distinct (scenario, plan hash, event-log hash)")
 
 PROPS = {
+    "C06": {
+        "rule": "1..3 connections x 1..8 writes (sizes 0..256 KiB, raw or file buffers, issued from the event-loop thread or an application thread) "
+                "against per-connection socket buffers/segment sizes/latencies and reader pacing drawn per run; short writes, would-block, spurious "
+                "EAGAIN, EINTR and per-call caps injected by the simulated kernel; " + NONTRIVIAL,
+        "probes_expected": ["eagain-branch", "short-write", "write-from-foreign-thread", "file-buffer", "file-buffer-with-would-block"],
+        "assumptions": ["liveness is judged 20 simulated seconds beyond three times what the reader's own pace needs"],
+        "quick": {"batches": [("c06_writes", "plain", 5000), ("c06_small", "tsan", 1000)], "chunk": 100},
+        "thorough": {"batches": [("c06_writes", "plain", 150000), ("c06_small", "plain", 150000), ("c06_small", "tsan", 30000), ("c06_small", "asan", 30000)], "chunk": 500},
+    },
+    "C07": {
+        "rule": "one worker; connection 0 requests 1..4 responses larger than its buffers and stops reading for 0.2..3 s; 1..3 neighbour connections "
+                "issue small requests before, during and after the stall; " + NONTRIVIAL,
+        "probes_expected": ["eagain-branch", "short-write"],
+        "assumptions": ["latency bound for neighbours: 100 simulated ms (quanta are microseconds; no thread stalls are injected in this scenario)"],
+        "quick": {"batches": [("c07_stall", "plain", 1200), ("c06_writes", "plain", 2000)], "chunk": 50},
+        "thorough": {"batches": [("c07_stall", "plain", 30000), ("c06_writes", "plain", 50000)], "chunk": 200},
+    },
+    "C09": {
+        "rule": "endpoint with 1..4 workers and a shared Rest::Router; 2..8 keep-alive clients x 1..6 requests with unique tags over routed methods, "
+                "unrouted paths (404/405) and methods without any route; shutdown() after the load or at a drawn instant in the middle of it, then "
+                "destruction; thread stalls injected; plain and ThreadSanitizer builds; " + NONTRIVIAL,
+        "probes_expected": ["shutdown-idle", "shutdown-with-load", "shutdown-with-connections-open", "shutdown-with-requests-in-flight",
+                            "method-not-allowed", "not-found", "method-without-route-table", "late-client"],
+        "assumptions": [],
+        "quick": {"batches": [("c09_serving", "plain", 4000), ("c09_serving", "tsan", 800)], "chunk": 100},
+        "thorough": {"batches": [("c09_serving", "plain", 100000), ("c09_serving", "tsan", 20000)], "chunk": 500},
+    },
     "C11": {
         "rule": "promise programs (1..4 roots, 1..10 then/whenAll/whenAny/whenAll(range) nodes, continuation kinds value/void/"
                 "resolved-promise/pending-promise/rejected-promise, handlers ignore/rethrow/custom) with one attach/settle action per node, "
@@ -52,6 +79,12 @@ PROPS = {
 
 SC_NOTE = "sequentially consistent memory; the simulated kernel follows Linux semantics; a clean batch is evidence, not proof"
 MANIFEST_TEXT = {
+    "C06": {"level": "seeded search over write sequences, issuing threads, socket-buffer geometries, reader pacing and placements of short-write / would-block results; stream, promise, liveness and descriptor oracles on every run",
+            "design_ref": "4.4", "note": "real Tcp::Listener/reactor/Transport on the simulated kernel; " + SC_NOTE},
+    "C07": {"level": "seeded search over placements and durations of a would-block period on one connection relative to requests on neighbour connections of the same worker; latency, busy-wait and delivery oracles",
+            "design_ref": "4.5", "note": "busy-wait is detected by the simulated kernel (EAGAIN streaks without epoll_wait, wake-ups without progress); " + SC_NOTE},
+    "C09": {"level": "seeded search over interleavings of workers, acceptor, clients and the shutdown point; ThreadSanitizer inside the simulation judges framework-internal shared state",
+            "design_ref": "4.7", "note": "the baton is invisible to ThreadSanitizer, so reports depend only on Pistache's own synchronisation and the chosen schedule; " + SC_NOTE},
     "C11": {"level": "seeded search over promise programs and over the orders in which their attach and settle actions execute, each run checked against an executable reference model of the clauses of C11",
             "design_ref": "4.8", "note": "actions are atomic with respect to each other (races are C12's subject); " + SC_NOTE},
     "C12": {"level": "seeded search over interleavings of one settling and 1..2 attaching threads at the granularity of lock operations and the state/list accesses of the promise core, plain and ThreadSanitizer builds",
@@ -72,10 +105,7 @@ NOT_APPLICABLE = {
     "C01": "check under construction (DESIGN.md section 9); not yet claimed",
     "C03": "check under construction (DESIGN.md section 9); not yet claimed",
     "C04": "check under construction (DESIGN.md section 9); not yet claimed",
-    "C06": "check under construction (DESIGN.md section 9); not yet claimed",
-    "C07": "check under construction (DESIGN.md section 9); not yet claimed",
     "C08": "check under construction (DESIGN.md section 9); not yet claimed",
-    "C09": "check under construction (DESIGN.md section 9); not yet claimed",
     "C14": "check under construction (DESIGN.md section 9); not yet claimed",
     "C15": "check under construction (DESIGN.md section 9); not yet claimed",
 }
